@@ -54,15 +54,50 @@ def run(chk, w):
                 d = dict(v[3][0][2])
                 masks.add((C.show_arg(nz, d.get("sequence_mask")), C.show_arg(nz, d.get("window_size"))))
     chk.ob("R01.7", "sequence-mask", masks == {("-1 + (1<<%d*arg2)" % (2 * shift), "arg2")} if ok else False, "sequence_mask/window_size stored as %s; expected ((1 << (SHIFT*2*window)) - 1, window)" % sorted(masks), site=C.site(b), sample={"mask": sorted(masks)})
-    # increment functions
-    for fn, want in (("increment_seqid", "BitAnd(BitOr(Shl(arg2, %s), arg3), arg1.sequence_mask)"), ("increment_seqid_without_char", "BitAnd(Shl(arg2, %s), arg1.sequence_mask)")):
-        bi, ii, oi = C.run_fn(w, M + "::" + fn)
-        chk.fn(M + "::" + fn)
-        got = set()
-        for o in oi:
-            if o.kind == "return":
-                got.add(forms.show(forms.Normalizer(ii, o).form(o.value_at((("L", 0),)))))
-        chk.ob("R01.7", fn, got == {want % shift} if ok else False, "%s computes %s; expected %s" % (fn, sorted(got), want % shift), site=C.site(bi), sample={"form": sorted(got)})
+    # the rolling window id, derived from add_scores itself (the small helpers increment_seqid / increment_seqid_without_char /
+    # get_score are always spliced into it, see inline.FORCE_INLINE, so it does not matter whether they exist as functions):
+    # per iteration  id' = ((id << SHIFT) | type) & mask  when a character type is available,  (id << SHIFT) & mask  otherwise,
+    # and the table is read at the NEW id
+    ba0 = C.body(w, M + "::add_scores")
+    cfa = cfgmod.cfg_of(ba0)
+    la = cfa.natural_loops()
+    ia0 = absint.Interp(w, ba0, models=effects.EXTRA_MODELS, summaries=C.summaries(w))
+    steps = {}
+    reads = set()
+    for h in sorted(la):
+        pre0 = [o for o in ia0.run(0, stop=[h]) if o.kind == "stop"]
+        if not pre0:
+            continue
+        n0 = len(pre0[0].trace)
+        for o in ia0.run(h, stop=set(cfa.blocks) - la[h], env=pre0[0].env, cons=pre0[0].cons, stop_at_entry_again=True, trace=pre0[0].trace, invariant=True):
+            if o.kind != "stop" or o.info != h:
+                continue
+            nz = forms.Normalizer(ia0, o)
+            got = [e for e in o.trace[n0:] if e[0] == "call" and (e[2] or "").endswith("[T]::get")]
+            avail = None
+            for e in got:
+                c = o.cons.get("ret:%d" % e[1])
+                avail = c[2] if c and c[0] == "varis" else avail
+            for l in sorted(ia0._loop_assigned_locals(h)):
+                if l in ba0.names() and ba0.locals[l]["ty"] == "usize" and C.loop_carried(ba0, cfa, h, l):
+                    v = o.value_at((("L", l),))
+                    if v[0] == "expr":
+                        f = forms.show(nz.form(v))
+                        f = re.sub(r"hv:loop\d+:_%d\b" % l, "ID", f)
+                        f = re.sub(r"\*\{\[T\]::get\(&arg2\.char_types\.<content>, .*\)@Some\.0\}", "TYPE", f)
+                        steps.setdefault(avail, set()).add(f)
+                        for e in o.trace[n0:]:
+                            if e[0] == "call" and "Index<" in (e[2] or "") and len(e[3]) > 1 and "scores" in str(e[3][0]):
+                                g = re.sub(r"hv:loop\d+:_%d\b" % l, "ID", forms.show(nz.form(e[3][1])))
+                                g = re.sub(r"\*\{\[T\]::get\(&arg2\.char_types\.<content>, .*\)@Some\.0\}", "TYPE", g)
+                                reads.add((avail, g == f))
+    want_steps = {"Some": {"BitAnd(BitOr(Shl(ID, %s), TYPE), arg1.sequence_mask)" % shift}, "None": {"BitAnd(Shl(ID, %s), arg1.sequence_mask)" % shift}}
+    chk.ob("R01.7", "increment_seqid", steps.get("Some") == want_steps["Some"] if ok else False,
+           "with a character type available the window id becomes %s; expected %s" % (sorted(steps.get("Some", [])), sorted(want_steps["Some"])), site=C.site(ba0), sample={"form": sorted(steps.get("Some", []))})
+    chk.ob("R01.7", "increment_seqid_without_char", steps.get("None") == want_steps["None"] if ok else False,
+           "past the end of the sentence the window id becomes %s; expected %s" % (sorted(steps.get("None", [])), sorted(want_steps["None"])), site=C.site(ba0), sample={"form": sorted(steps.get("None", []))})
+    chk.ob("R01.7", "table-read-at-new-id", reads == {("Some", True), ("None", True)},
+           "the score table is read at (character available, index == new window id) = %s; expected the new id in both cases" % sorted(reads, key=str), site=C.site(ba0))
     # add_scores: preload 0..W, lookup char_types[i + W], add get_score(seqid) to every boundary score
     ba, ia, oa = C.run_fn(w, M + "::add_scores")
     chk.fn(M + "::add_scores")
